@@ -651,7 +651,14 @@ func checkCRCGoroutine(c *core.Ctx, fn *ssa.Function) {
 	match := eqEdges(fn, isSum, isFPcrc)
 	legacy := eqEdges(fn, isFPcrc, func(v ssa.Value) bool { k, ok := an.ConstInt(v); return ok && k == 0 })
 	var exitFn *ssa.Function
-	for _, cl := range fn.AnonFuncs {
+	// the exit routine: a closure of the goroutine, or a private function of the package it calls
+	cands := append([]*ssa.Function{}, fn.AnonFuncs...)
+	for _, call := range an.AllCalls(fn, false) {
+		if g := call.Common().StaticCallee(); g != nil && g.Pkg == an.TopFunc(fn).Pkg && len(g.Blocks) > 0 && isHelperName(g) {
+			cands = append(cands, g)
+		}
+	}
+	for _, cl := range cands {
 		hasFatal := false
 		for _, call := range an.AllCalls(cl, false) {
 			if an.IsCall(call, "log.Logger.Fatal", "log.Logger.Fatalf", "os.Exit") {
@@ -668,6 +675,9 @@ func checkCRCGoroutine(c *core.Ctx, fn *ssa.Function) {
 			return false
 		}
 		if mc, ok := call.Common().Value.(*ssa.MakeClosure); ok && exitFn != nil && mc.Fn == ssa.Value(exitFn) {
+			return true
+		}
+		if g := call.Common().StaticCallee(); g != nil && exitFn != nil && g == exitFn {
 			return true
 		}
 		return an.LoadedField(call.Common().Value, "Store", "crcBadHandler")
